@@ -201,7 +201,10 @@ def getValueF (f : FltTy) (m : Mag) : Option FVal :=
       | none => none
       | some w =>
         -- safe_to_cast_to<T>: lowest(T) ≤ w ≤ max(T)
-        if FVal.le (.fin (-f.maxFinite)) w && FVal.le w (.fin f.maxFinite) then some (w.toFlt f)
+        if FVal.le (.fin (-f.maxFinite)) w && FVal.le w (.fin f.maxFinite) then
+          -- a magnitude is strictly positive: a value that underflows to zero in `T` cannot be represented
+          -- (magnitude.hh:557-560, the fix of finding F6)
+          if w.toFlt f = .fin 0 then none else some (w.toFlt f)
         else none
 
 /-- `get_value_result<T>(M)` for integral `T`: the magnitude must be an integer that fits.
